@@ -101,7 +101,12 @@ class AntSystem:
             )
 
         # if start_node is not set, we use random start nodes
-        return torch.multinomial(td["action_mask"].float(), num_starts, replacement=True).view(-1)
+        # [batch, num_starts] -> rows in (start, instance) order, as the replicated state is laid out
+        return (
+            torch.multinomial(td["action_mask"].float(), num_starts, replacement=True)
+            .transpose(0, 1)
+            .reshape(-1)
+        )
 
     def run(
         self,
